@@ -90,6 +90,8 @@ def near_twin(ops, r):
             extras.append([an, {"k": "lit", "v": v["v"], "dt": {"form": "xsd", "local": "token"}}])
         elif k == "lang":
             extras.append([an, {"k": "lang", "v": v["v"], "lang": "en-GB" if v["lang"] != "en-GB" else "fr"}])
+            swapped = v["lang"].upper() if v["lang"] != v["lang"].upper() else v["lang"].lower()
+            extras.append([an, {"k": "lang", "v": v["v"], "lang": swapped}])      # the same tag in another letter case is another value
         elif k == "int":
             extras.append([an, {"k": "str", "v": str(v["v"])}])
             extras.append([an, {"k": "lit", "v": str(v["v"]), "dt": {"form": "xsd", "local": "integer"}}])
